@@ -106,7 +106,7 @@ def main() -> None:
             rr = random.Random(p["text"])
             k = rr.randrange(len(p["literals"]))
             tile = lambda: rr.choice([rr.randrange(-200, -1), -1, 0, rr.randrange(100, 200)])  # noqa: E731
-            new = ["p", rr.choice(["edited mark", "it's", 'say "x"']), rr.choice([0, 2]), rr.choice([0, 2]), tile(), tile()]
+            new = ["p", rr.choice(["edited mark", "it's", 'say "x"', "two\nlines"]), rr.choice([0, 2]), rr.choice([0, 2]), tile(), tile()]
             splice_jobs.append((p, k, new, c))
     sp = run_impl([("checks.c18:splice", p["text"], p["literals"][k], new) for p, k, new, _ in splice_jobs])
     recs = run_impl([("compile", s["text"]) for s in sp])
